@@ -5,6 +5,14 @@ get_log_likelihood), rl4co.utils.ops.calculate_entropy, the bundled decoders, Po
 
 Oracle 1  reference decode loop (vf/models/decode.py): encoder once, decoder per step, float64 log-softmax over the
           mask with the documented tanh clipping / temperature, env.step with the *returned* actions.
+          Decoding filters: top_k / top_p are part of the drawn decoding configuration (kwargs of the policy call and of
+          the evaluate call).  The reference applies the documented order  tanh clipping -> mask -> /temperature ->
+          top-k -> top-p -> log-softmax,  i.e. the step distribution is RENORMALISED over the kept entries
+          (vf.models.decode.ref_filter); returned log-likelihoods / entropies are compared with that reference, the
+          taken action must lie in the reference kept set, greedy decodes must still take the argmax, and the
+          [R,N] log-prob tables that DecodingStrategy.step (evaluate strategy, documented `store_all_logp`) produces
+          from the decoder's own logits must exponentiate to 1 and be -inf exactly outside the kept set.  Steps whose
+          kept set hinges on float rounding (near-tie at the k-th value / nucleus cut, ref.ambig) are don't-care.
 Oracle 2  evaluate round trip the way PPO does it: policy(td, env, actions=A, return_entropy=True,
           return_sum_log_likelihood=False) reproduces per-step log-probs, reward and entropy (ratio exp(ll'-ll) == 1).
 Irrelevant-step flag: get_log_likelihood as a pure function, and end to end by injecting a [B,T] `mask` key into the
@@ -51,7 +59,11 @@ RULE = (
     "multisample sampling (k), temperature in {1,0.5,2}, tanh clipping in {policy default,0,5,10} given as policy "
     "attribute or decoding kwarg, eval or train mode (dropout 0; train only without batch norm / noisy gating), "
     "return_sum on/off, return_entropy on/off, optional injected [B,T] step-relevance mask (tsp/atsp/pdp/smtwtp), "
-    "float64 slice). Non-trivial = some row has >= 2 decoded steps with >= 2 feasible actions and, for "
+    "float64 slice, decoding filters top_k in {0 x9,1,2,3} and top_p in {0 x9,0.5,0.8,0.95} for every mode (given as "
+    "decoding kwargs to the generating call and to the evaluate call; not for ptrnet)). Filtered cases (top_k>0 or "
+    "top_p>0) are counted (`filtered_case`); their non-trivial class is `filter_removed_feasible`: at some decoded step "
+    "of some row the reference kept set is strictly smaller than the mask (the ratio of the two counters is the "
+    "fraction to read); steps with a rounding-dependent kept set are counted as `steps_filter_ambiguous`. Non-trivial = some row has >= 2 decoded steps with >= 2 feasible actions and, for "
     "variable-length envs with >= 2 rows, rows finish at different steps; distinct = case hash. "
     "Decisive fraction (top-2 gap > 1e-4 among multi-choice steps) is reported as event counters. "
     "Zoo entries am/mdcpdp (fixed length n+2*depots-1; depots 1-3, reward/problem/distance modes by variant; no forced-start "
@@ -69,9 +81,21 @@ ASSUMPTIONS = [
     "reference loop trusts the bundled encoder/decoder modules and env.step, not DecodingStrategy / process_logits / "
     "get_log_likelihood / calculate_entropy",
     "float32 tolerance 1e-5*(1+|x|) per step (x steps for sums) plus K*eps*max|scaled logit| (K=8 same logits, 32 across "
-    "layouts; only material without tanh clipping); multistart run vs re-evaluation on the expanded batch are different "
+    "layouts; only material without tanh clipping); multistart run vs re-evaluation on the expanded batch (and a "
+    "select_best output vs its reference on the un-expanded batch) are different "
     "batch layouts: 1e-3 in float32 (rounding amplified by the spread-initialised encoders, measured 5e-4), 1e-9 in the "
     "float64 slice; float64 slice 1e-9 everywhere",
+    "top-k / top-p: reference semantics are the documented ones of process_logits (top-k keeps every entry >= the k-th "
+    "largest, ties included; top-p keeps the smallest high-probability prefix whose mass, under the distribution left by "
+    "masking / temperature / top-k, reaches top_p; log-softmax over the kept entries). The kept set is ambiguous when a "
+    "feasible entry lies within 1e-5*(1+max|z|) below the k-th value or the optimistic and pessimistic nuclei (band 1e-5 "
+    "on values and on the cut; tied blocks straddling the cut) differ: per-step comparisons skip such steps, summed ones "
+    "skip the row (counted). Comparisons between runs in different batch layouts (select_best, multistart re-evaluation) "
+    "use the band 2e-3; a multistart re-evaluation is skipped (counted) when the returned action may fall outside the kept "
+    "set of the other layout (evaluate mode asserts finite log-probs)",
+    "the full step tables are not part of the policy output: the normalisation check drives DecodingStrategy.step "
+    "(get_decoding_strategy('evaluate', store_all_logp=True, same temperature / clipping / top_k / top_p) the way "
+    "ConstructivePolicy.forward does, on the logits and masks the bundled decoder produced along the returned actions",
     "MatNet's random one-hot init embedding replaced by a deterministic functionally identical module (DESIGN 2.5)",
     "multistart cases whose forced start node is infeasible at reset are C12's business (excluded, counted)",
     "evaluate mode has no forced-start notion: multistart outputs are re-evaluated on the start-major expanded batch "
@@ -114,6 +138,8 @@ VARLEN = ("cvrp", "cvrptw", "sdvrp", "svrp", "op", "pctsp", "spctsp", "mtvrp", "
 NO_F64 = ("l2d", "mvmoe", "ptrnet")  # hard-coded float32 tensors inside (float64 inputs are not a documented use)
 NORM_KEYS = ("am", "symnco", "ham")
 MODES = ["greedy", "sampling", "multistart_greedy", "multistart_sampling", "multisample"]
+TOP_K = [0] * 9 + [1, 2, 3]
+TOP_P = [0.0] * 9 + [0.5, 0.8, 0.95]
 
 
 # --------------------------------------------------------------------------- strategy
@@ -149,6 +175,9 @@ def cases(draw, tier="quick"):
     unclipped = case["tanh"] == 0.0 or (case["tanh"] is None and key not in ("am", "am_pomo", "symnco", "ham", "polynet",
                                                                            "l2d", "mvmoe", "ptrnet"))
     case["spread"] = draw(st.sampled_from([1.25, 1.5] if unclipped else [1.25, 1.5, 1.5, 2.0, 2.5]))
+    if key != "ptrnet":  # decoding filters (DecodingStrategy kwargs); PointerNetworkPolicy has its own loop without them
+        case["top_k"] = draw(st.sampled_from(TOP_K))
+        case["top_p"] = draw(st.sampled_from(TOP_P))
     if envn in FIXED_LEN and key != "ptrnet" and draw(st.integers(0, 2)) == 0:
         case["stepmask"] = draw(st.lists(st.booleans(), min_size=4, max_size=24))
     return case
@@ -212,10 +241,13 @@ def minimize(case):
         yield {**c, "k": 2}
     for key, val in (("stepmask", None), ("f64", False), ("train", False), ("ret_entropy", False), ("ret_sum", False),
                      ("select_best", False), ("via", "attr"), ("temperature", 1.0), ("tanh", None), ("norm", None),
-                     ("variant", 0), ("spread", 1.5), ("pseed", 0)):
+                     ("variant", 0), ("spread", 1.5), ("pseed", 0), ("top_k", 0), ("top_p", 0.0)):
         if key == "stepmask":
             if "stepmask" in c:
                 yield {kk: vv for kk, vv in c.items() if kk != "stepmask"}
+        elif key in ("top_k", "top_p"):
+            if c.get(key):
+                yield {**c, key: val}
         elif c.get(key) != val:
             yield {**c, key: val}
     if c["mode"] == "sampling":
@@ -267,6 +299,48 @@ def _defaults(policy):
     return policy._vf_defaults
 
 
+def _strategy_tables(ctx, policy, ref, A, Tm, C, top_k, top_p, slice_, tol, eps):
+    """Whole step distributions: drive DecodingStrategy.step the way ConstructivePolicy.forward does (evaluate strategy,
+    documented `store_all_logp=True`, same temperature / clipping / filters) on the logits and masks the bundled decoder
+    produced along the returned actions (ref.tables).  Every [R,N] table must be a probability distribution supported
+    exactly on the reference kept set and equal the reference log-probs there (rows with a rounding-dependent kept set
+    are skipped)."""
+    from rl4co.utils.decoding import get_decoding_strategy
+    from tensordict import TensorDict
+
+    R = A.shape[0]
+    strat = get_decoding_strategy("evaluate", temperature=Tm, tanh_clipping=C, mask_logits=policy.mask_logits, top_k=top_k,
+                                  top_p=top_p, store_all_logp=True)
+    td_ = TensorDict({}, batch_size=[R])
+    ninf = -math.inf
+    for t, tab in enumerate(ref.tables):
+        if tab is None:
+            continue
+        n_before = len(strat.logprobs)
+        ctx.guard(strat.step, tab["logits"].clone(), tab["mask"].clone(), td_, action=A[:, t].clone(),
+                  what=f"strategy_step|{slice_}")
+        if len(strat.logprobs) != n_before + 1 or tuple(strat.logprobs[-1].shape) != tuple(tab["lp"].shape):
+            raise RuntimeError("store_all_logp channel broken: no [R,N] table recorded for the step")
+        got = strat.logprobs[-1].detach()
+        rows = ~ref.ambig[:, t]
+        if not bool(rows.any()):
+            continue
+        g, w = got[rows].double(), tab["lp"][rows]
+        kept = w > ninf
+        ctx.check(not bool(torch.isnan(g).any()) and bool(((g > ninf) == kept).all()), f"kept_set|{slice_}",
+                  f"step {t}: the support of the step distribution is not the reference kept set of top_k={top_k} / "
+                  f"top_p={top_p}", {"step": t, "got": g, "reference": w})
+        total = g.exp().sum(-1)
+        ctx.check(bool(((total - 1).abs() <= (1e-9 if tol < 1e-8 else 1e-5)).all()), f"not_normalised|{slice_}",
+                  f"step {t}: probabilities of the step distribution sum to {total.tolist()} (top_k={top_k}, top_p={top_p})",
+                  {"step": t, "got": g, "reference": w})
+        sl = (8 * eps * ref.scale[rows, t]).view(-1, 1).expand_as(w)
+        ctx.check(_close(g[kept], w[kept], tol, 1.0, sl[kept]), f"table_vs_reference|{slice_}",
+                  f"step {t}: log-probs of the kept entries differ from the renormalised reference by "
+                  f"{_maxdiff(g[kept], w[kept]):.3e}", {"step": t, "got": g, "reference": w})
+    ctx.event("strategy_tables_checked")
+
+
 # --------------------------------------------------------------------------- main check
 def execute(case, ctx):
     key, envn = case["zoo"]
@@ -304,6 +378,17 @@ def execute(case, ctx):
     else:
         policy.temperature, policy.tanh_clipping = dT, dC
         tkw = dict(temperature=Tm, tanh_clipping=C)
+    # decoding filters: always decoding kwargs (there is no policy attribute for them), for the generating call AND the
+    # evaluate call; cases recorded before the filters were drawn carry no such keys
+    top_k, top_p = int(case.get("top_k", 0) or 0), float(case.get("top_p", 0.0) or 0.0)
+    if top_k > 0:
+        tkw["top_k"] = top_k
+    if top_p > 0:
+        tkw["top_p"] = top_p
+    if top_k > 0 or top_p > 0:
+        ctx.event("filtered_case")
+        ctx.event(f"filter:top_k={top_k}|top_p={top_p}")
+        ctx.event(f"filtered_mode:{mode}")
     train = bool(case["train"]) and not has_batchnorm(policy) and not INFO[key].get("eval_only", False)
     tol = 1e-9 if f64 else 1e-5
     ctx.event("train_mode" if train else "eval_mode")
@@ -369,6 +454,10 @@ def _run(case, ctx, env, inst, td0, policy, cfg, kw, tkw, slice_, tol, Tm, C, st
     multistart = mode.startswith("multistart")
     multisample = mode == "multisample"
     ksteps = k if (multistart or multisample) else 0
+    top_k, top_p = int(case.get("top_k", 0) or 0), float(case.get("top_p", 0.0) or 0.0)
+    filtered = top_k > 0 or top_p > 0
+    fkw = dict(top_k=top_k, top_p=top_p)
+    ninf = -math.inf
 
     torch.manual_seed(case["tseed"])
     with torch.no_grad():
@@ -384,18 +473,31 @@ def _run(case, ctx, env, inst, td0, policy, cfg, kw, tkw, slice_, tol, Tm, C, st
     # ---- Oracle 1: reference loop on the returned actions
     if select_best:
         # best start per instance: steps >= 1 are ordinary decoding steps of the un-expanded batch
-        ref = reference_logprobs(policy, env, td0, A, num_starts=0, temperature=Tm, tanh_clipping=C)
+        ref = reference_logprobs(policy, env, td0, A, num_starts=0, temperature=Tm, tanh_clipping=C, keep_tables=filtered,
+                                 **fkw)
         want = ref.logp.clone()
         want[:, 0] = 0.0
         ent_steps = ref.entropy.clone()
         ent_steps[:, 0] = 0.0
         forced0 = True
+        # this reference runs in the [B] layout, the generating call in [B, starts]: wide ambiguity band
+        amb = ref.ambig_x.clone()
+        amb[:, 0] = False
     else:
         ref = reference_logprobs(policy, env, td0, A, num_starts=ksteps, forced_first=multistart, temperature=Tm,
-                                 tanh_clipping=C)
+                                 tanh_clipping=C, keep_tables=filtered, **fkw)
         want = ref.logp
         ent_steps = ref.entropy
         forced0 = multistart
+        amb = ref.ambig
+    # steps whose kept set (top-k / top-p) hinges on float rounding are don't-care: per-step comparisons skip the step,
+    # summed ones the row (all True without filters)
+    okst = ~amb
+    okrow = okst.all(1)
+    decoded = ~ref.forced.view(1, -1).expand(ref.nfeas.shape[0], T)
+    if select_best:
+        decoded = decoded.clone()
+        decoded[:, 0] = False
     ctx.check(bool(ref.in_mask.all()), f"action_outside_mask|{slice_}", "a returned action was not in the action mask",
               {"actions": A, "in_mask": ref.in_mask})
     ctx.check(ref.mask_ok, f"decoder_mask_mismatch|{slice_}", "decoder-returned mask differs from td['action_mask']")
@@ -414,15 +516,28 @@ def _run(case, ctx, env, inst, td0, policy, cfg, kw, tkw, slice_, tol, Tm, C, st
     T_scale = max(1, T)
     eps = 2.0 ** -52 if tol < 1e-8 else 2.0 ** -23
     sl1 = 8 * eps * ref.scale      # same logits, float log-softmax only
+    tol1 = tol
+    if select_best:
+        # the reference of a select_best output runs on the un-expanded batch [B], the generating call in [B, starts]:
+        # different batch layouts (see the round trip below; 2.3e-4 observed on am/cvrp n=7, spread 2.5, 1e-9 in float64)
+        tol1 = 1e-9 if tol < 1e-8 else 1e-3
+        sl1 = 32 * eps * ref.scale
+    if filtered:
+        # the action actually taken lies in the support of the filtered step distribution
+        ctx.check(bool((want[okst] > ninf).all()), f"action_filtered_out|{slice_}",
+                  f"a returned action lies outside the reference kept set of top_k={top_k} / top_p={top_p}",
+                  {"actions": A, "reference": want, "ambiguous": amb})
     if case["ret_sum"]:
-        ok = _close(ll, want.sum(1), tol, T_scale, sl1.sum(1))
+        ok = _close(ll[okrow], want.sum(1)[okrow], tol1, T_scale, sl1.sum(1)[okrow])
     else:
-        ok = _close(ll, want, tol, 1.0, sl1)
+        ok = _close(ll[okst], want[okst], tol1, 1.0, sl1[okst])
     if not ok:
         ctx.violation(f"ll_vs_reference|{slice_}|{'sum' if case['ret_sum'] else 'steps'}",
                       f"returned log-likelihood differs from the reference log-probs of the returned actions by "
-                      f"{_maxdiff(ll, want.sum(1) if case['ret_sum'] else want):.3e}",
-                      {"ll": ll, "reference": want, "actions": A})
+                      f"{_maxdiff(ll[okrow], want.sum(1)[okrow]) if case['ret_sum'] else _maxdiff(ll[okst], want[okst]):.3e}"
+                      + (f" (reference: distribution renormalised over the entries kept by top_k={top_k} / top_p={top_p})"
+                         if filtered else ""),
+                      {"ll": ll, "reference": want, "actions": A, "ambiguous": amb})
     if not case["ret_sum"]:
         if forced0:
             ctx.check(bool((ll[:, 0] == 0).all()), f"forced_start_nonzero|{slice_}",
@@ -431,9 +546,20 @@ def _run(case, ctx, env, inst, td0, policy, cfg, kw, tkw, slice_, tol, Tm, C, st
             ctx.check(bool((ll[~smask] == 0).all()), f"irrelevant_step_nonzero|{slice_}",
                       "a step flagged irrelevant contributes a non-zero log-prob", {"ll": ll, "mask": smask})
     if case["ret_entropy"]:
-        ctx.check(_close(out["entropy"], ent_steps.sum(1), tol, T_scale, 4 * sl1.sum(1)), f"entropy_vs_reference|{slice_}",
-                  f"returned entropy differs from the reference by {_maxdiff(out['entropy'], ent_steps.sum(1)):.3e}",
-                  {"entropy": out["entropy"], "reference": ent_steps.sum(1)})
+        ctx.check(_close(out["entropy"][okrow], ent_steps.sum(1)[okrow], tol1, T_scale, 4 * sl1.sum(1)[okrow]),
+                  f"entropy_vs_reference|{slice_}",
+                  f"returned entropy differs from the reference by "
+                  f"{_maxdiff(out['entropy'][okrow], ent_steps.sum(1)[okrow]):.3e}",
+                  {"entropy": out["entropy"], "reference": ent_steps.sum(1), "ambiguous": amb})
+    if filtered:
+        if "greedy" in mode:
+            # the filters never remove the most probable entry: greedy decoding still takes the reference argmax
+            # wherever it is decisive (top-2 gap of the kept entries, or a single kept entry)
+            dec_ = okst & decoded & (ref.gap > (2e-3 if select_best else 1e-4))
+            ctx.check(not bool((dec_ & (A != ref.argmax)).any()), f"greedy_not_argmax|{slice_}",
+                      f"greedy decoding with top_k={top_k} / top_p={top_p} took another action than the most probable one "
+                      f"at a decisive step", {"actions": A, "argmax": ref.argmax, "gap": ref.gap})
+        _strategy_tables(ctx, policy, ref, A, Tm, C, top_k, top_p, slice_, tol, eps)
 
     # reward: env.get_reward on the independently replayed final state, and the independent objective
     rew = out["reward"].reshape(-1)
@@ -466,13 +592,32 @@ def _run(case, ctx, env, inst, td0, policy, cfg, kw, tkw, slice_, tol, Tm, C, st
             do_rt = False  # PolyNet's strategy vector depends on the start index (by design)
             ctx.event("roundtrip_skipped(polynet multistart)")
         else:
-            ref_eval = reference_logprobs(policy, env, td_eval, A, num_starts=0, temperature=Tm, tanh_clipping=C)
+            ref_eval = reference_logprobs(policy, env, td_eval, A, num_starts=0, temperature=Tm, tanh_clipping=C, **fkw)
     else:
         td_eval, first = td0.clone(), (1 if select_best else 0)
+    Te = ref.all_done_at if select_best else T
+    # ambiguity of the kept sets: amb_e for the evaluate call against its own reference (same layout, same logits),
+    # amb_rt for generating call vs evaluate call (identical computations in the same layout: never ambiguous; across
+    # layouts the wide band of both references)
+    amb_e = ref_eval.ambig[:, :Te]
+    amb_rt = (ref.ambig_x | ref_eval.ambig_x)[:, :Te] if first == 1 else torch.zeros_like(amb_e)
+    if do_rt and filtered and first == 1:
+        lp_e = ref_eval.logp[:, :Te]
+        # evaluate mode treats the forced first move as an ordinary (filtered) decoding step and asserts finite
+        # log-probs: the round trip is only defined when the forced start survives the filter in the evaluate layout
+        if bool(((lp_e[:, 0] == ninf) | amb_e[:, 0]).any()):
+            do_rt = False
+            ctx.event("roundtrip_skipped(forced start outside the filtered support)")
+        elif bool((amb_rt & ((lp_e == ninf) | amb_e))[:, 1:].any()):
+            do_rt = False
+            ctx.event("roundtrip_skipped(kept set may differ across layouts)")
+        else:
+            ctx.check(not bool((lp_e == ninf)[:, 1:].any()), f"kept_set_across_layouts|{slice_}",
+                      "a returned action robustly inside the kept set of the generating layout lies outside the reference "
+                      "kept set on the start-major expanded batch", {"actions": A, "reference_eval": lp_e})
     if do_rt:
         # the evaluate loop stops once every row is done: with select_best the kept starts may need fewer steps (Te)
         # than the slowest discarded start; the trailing steps of the generating call are judged by Oracle 1 only
-        Te = ref.all_done_at if select_best else T
         ekw["actions"] = A[:, :Te].clone()
         ekw["max_steps"] = Te  # the loop breaks once step > max_steps: exactly Te steps are allowed
         with torch.no_grad():
@@ -492,44 +637,61 @@ def _run(case, ctx, env, inst, td0, policy, cfg, kw, tkw, slice_, tol, Tm, C, st
         tolx = tol if first == 0 else (1e-9 if tol < 1e-8 else 1e-3)
         sl2 = 8 * eps * scale_e
         slx = 32 * eps * scale_e  # across batch layouts the logits themselves differ by rounding
-        if not _close(ll2, want2, tol, 1.0, sl2):
+        ok_e = ~amb_e                                  # [R,Te] evaluate call vs its reference
+        ok_rt = ~amb_rt[:, first:]                     # [R,Te-first] generating call vs evaluate call
+        row_e = ok_e.all(1)
+        row_rt = ok_rt.all(1) & okst[:, Te:].all(1)    # (trailing steps enter through the reference tail)
+        if not _close(ll2[ok_e], want2[ok_e], tol, 1.0, sl2[ok_e]):
             ctx.violation(f"evaluate_vs_reference|{slice_}",
-                          f"evaluate-mode log-probs differ from the reference by {_maxdiff(ll2, want2):.3e}",
-                          {"ll_eval": ll2, "reference": want2, "actions": A})
+                          f"evaluate-mode log-probs differ from the reference by {_maxdiff(ll2[ok_e], want2[ok_e]):.3e}",
+                          {"ll_eval": ll2, "reference": want2, "actions": A, "ambiguous": amb_e})
         # round trip against the generating call
         tail = want[:, Te:].sum(1)  # reference log-probs of the steps the evaluate loop no longer takes
         if case["ret_sum"]:
             old_sum = ll.double() - tail
         else:
             old_sum = ll.double()[:, :Te].sum(1)
-            if not _close(ll2[:, first:], ll[:, first:Te], tolx, 1.0, slx[:, first:]):
+            if not _close(ll2[:, first:][ok_rt], ll[:, first:Te][ok_rt], tolx, 1.0, slx[:, first:][ok_rt]):
                 ctx.violation(f"roundtrip_steps|{slice_}",
                               f"re-evaluating the returned actions changes per-step log-probs by "
-                              f"{_maxdiff(ll2[:, first:], ll[:, first:Te]):.3e}", {"ll": ll, "ll_eval": ll2})
+                              f"{_maxdiff(ll2[:, first:][ok_rt], ll[:, first:Te][ok_rt]):.3e}", {"ll": ll, "ll_eval": ll2})
         new_sum = ll2.double()[:, first:].sum(1)
         ratio = torch.exp(new_sum - old_sum)
-        ctx.check(bool(((ratio - 1).abs() <= tolx * T_scale * (1 + old_sum.abs()) + 2 * slx[:, first:].sum(1)).all()),
+        ctx.check(bool(((ratio - 1).abs() <= tolx * T_scale * (1 + old_sum.abs()) + 2 * slx[:, first:].sum(1))[row_rt].all()),
                   f"ppo_ratio|{slice_}",
                   f"exp(ll_new - ll_old) = {ratio.tolist()} != 1", {"ll_old": old_sum, "ll_new": new_sum})
         ctx.check(_close(out2["reward"].reshape(-1), rew, 1e-6 if tol > 1e-8 else 1e-12), f"roundtrip_reward|{slice_}",
                   "evaluate mode returned a different reward for the same actions")
         ent_ref2 = ent_e.sum(1)
-        ctx.check(_close(out2["entropy"], ent_ref2, tol, T_scale, 4 * sl2.sum(1)), f"evaluate_entropy_vs_reference|{slice_}",
-                  f"evaluate-mode entropy differs from the reference by {_maxdiff(out2['entropy'], ent_ref2):.3e}")
+        ctx.check(_close(out2["entropy"][row_e], ent_ref2[row_e], tol, T_scale, 4 * sl2.sum(1)[row_e]),
+                  f"evaluate_entropy_vs_reference|{slice_}",
+                  f"evaluate-mode entropy differs from the reference by {_maxdiff(out2['entropy'][row_e], ent_ref2[row_e]):.3e}")
         if case["ret_entropy"]:
             e_old = out["entropy"].double() - ent_steps[:, Te:].sum(1)
             e_new = out2["entropy"].double() - (ent_e[:, 0] if first == 1 else 0.0)
-            ctx.check(_close(e_new, e_old, tolx, T_scale, 4 * slx.sum(1)), f"roundtrip_entropy|{slice_}",
-                      f"evaluate-mode entropy differs from the generating call by {_maxdiff(e_new, e_old):.3e}")
+            row_x = row_rt & (ok_e[:, 0] if first == 1 else True)
+            ctx.check(_close(e_new[row_x], e_old[row_x], tolx, T_scale, 4 * slx.sum(1)[row_x]), f"roundtrip_entropy|{slice_}",
+                      f"evaluate-mode entropy differs from the generating call by {_maxdiff(e_new[row_x], e_old[row_x]):.3e}")
         ctx.event("roundtrip_done")
+        if filtered:
+            ctx.event("roundtrip_done(filtered)")
 
     # ---- coverage bookkeeping
-    decoded = ~ref.forced.view(1, -1).expand(ref.nfeas.shape[0], T)
-    if select_best:
-        decoded = decoded.clone()
-        decoded[:, 0] = False
     multi = (ref.nfeas >= 2) & decoded
     n_multi = int(multi.sum())
+    if filtered:
+        removed = (ref.nkept < ref.nfeas) & decoded
+        ctx.event("steps_filtered_multi_choice", n_multi)
+        ctx.event("steps_filter_removed", int(removed.sum()))
+        ctx.event("steps_filter_ambiguous", int((amb & decoded).sum()))
+        ctx.event("steps_filter_taken_not_top1", int((removed & (A != ref.argmax)).sum()))
+        if bool(removed.any()):
+            ctx.event("filter_removed_feasible")
+            ctx.event(f"filter_removed_feasible:{mode}")
+        if bool((removed & okst).any()):
+            ctx.event("filter_removed_feasible(at an unambiguous step)")
+        if not bool(okrow.all()):
+            ctx.event("filtered_case_with_ambiguous_row")
     ctx.event("steps_multi_choice", n_multi)
     ctx.event("steps_decisive", int((ref.decisive() & multi).sum()))
     ctx.event("steps_saturated(p>1-1e-6)", int(((ref.logp > -1e-6) & multi).sum()))
